@@ -535,5 +535,5 @@ func TestC11(t *testing.T) {
 		run.Violation("ops", knownSelfConflict, v)
 		t.Errorf("regression case fails: %s", v.Fail)
 	}
-	ev.Explore(run, t, "ops", run.N(500, 5000), genCase, exec)
+	ev.Explore(run, t, "ops", run.N(500, 10000), genCase, exec)
 }
